@@ -42,7 +42,14 @@ func main() {
 	fs.StringVar(&cfg.Mode, "mode", "", "sub-mode (property specific)")
 	fs.StringVar(&cfg.Arg, "arg", "", "extra argument (property specific)")
 	fs.Parse(os.Args[2:])
+	if cfg.JSON != "" {
+		progressPath = cfg.JSON + ".progress"
+		os.Remove(progressPath)
+	}
 	rep := c(cfg)
+	if progressPath != "" {
+		os.Remove(progressPath)
+	}
 	if rep != nil {
 		rep.Property = name
 		rep.Seed = cfg.Seed
